@@ -262,6 +262,22 @@ func StatusCodeIsRedirect(statusCode int) bool {
 func getRedirectURL(baseURL string, location []byte) string {
 	u := protocol.AcquireURI()
 	u.Update(baseURL)
+	// The Location value comes from the peer and ends up in the request line of the next request:
+	// bytes that would break that line (SP, CTL, DEL) are percent-encoded first.
+	for i, c := range location {
+		if c <= ' ' || c == 0x7f {
+			quoted := append(make([]byte, 0, len(location)+8), location[:i]...)
+			for _, c := range location[i:] {
+				if c <= ' ' || c == 0x7f {
+					quoted = append(quoted, '%', "0123456789ABCDEF"[c>>4], "0123456789ABCDEF"[c&15])
+				} else {
+					quoted = append(quoted, c)
+				}
+			}
+			location = quoted
+			break
+		}
+	}
 	u.UpdateBytes(location)
 	redirectURL := u.String()
 	protocol.ReleaseURI(u)
